@@ -35,8 +35,20 @@ PLAIN = ["A", "B1", "C_2", "D-3", "E.4", "101", "0007", "Pt", "s12", "N9", "K", 
 
 @st.composite
 def case(draw):
-    net = draw(gen_net.determined_network(noise=1, n_max=7))
-    mixed = gen_net.add_mixed_points(draw, net) if draw(st.booleans()) else []
+    free = draw(st.integers(0, 4)) == 0
+    net = draw(gen_net.determined_network(noise=1, n_max=7, free=free))
+    if free:
+        gen_net.mix_constraints(draw, net)      # adj="XYz" / "xyZ": status of position and height differ
+    mixed = gen_net.add_mixed_points(draw, net) if (draw(st.booleans()) and not free) else []
+    if net["dims"] == "3d" and not free and draw(st.integers(0, 2)) == 0:
+        # a point with fixed position and adjusted height (fix="xy" adj="z"): its rows in the tables differ from both kinds
+        cand = [p for p in net["points"] if p["xy"] == "adj" and p["z"] == "adj"]
+        if cand:
+            q = draw(st.sampled_from(cand))
+            q["xy"] = "fix"
+            q["give_xy"] = True
+            q["dE"] = q["dN"] = 0.0
+            net["fixxy_adjz"] = True
     n = len(net["points"])
     style = draw(st.sampled_from(["special", "unicode", "mixed", "plain", "long"]))
     pool = {"special": SPECIAL, "unicode": UNI, "mixed": SPECIAL + UNI + PLAIN, "plain": PLAIN,
@@ -81,14 +93,28 @@ def parse_octave(text):
     m = re.search(r"^XYZ = \[(.*?)^\];", text, re.M | re.S)
     if m:
         out["XYZ"] = [[float(t) for t in line.replace(";", " ").split()] for line in m.group(1).strip().splitlines() if line.strip()]
+    for name in ("Indexes", "Constrained"):
+        m = re.search(r"^%s = \[(.*?)^\];" % name, text, re.M | re.S)
+        if m:
+            out[name] = [[int(t) for t in line.split()] for line in m.group(1).strip().splitlines() if line.strip()]
     return out
 
 
 def oracle(c, stats):
     net = c["net"]
-    if not gen_net.is_determined(net):
+    if net.get("free"):
+        from . import c20
+        if not c20.well_posed_free(net):
+            stats.label("discarded_free_not_well_posed")
+            return []
+        stats.label("free_network")
+        if any(p["xy"] == "constr" and p["z"] == "adj" or p["xy"] == "adj" and p["z"] == "constr" for p in net["points"]):
+            stats.label("free_network.mixed_constraints")
+    elif not gen_net.is_determined(net):
         stats.label("discarded_not_determined")
         return []
+    if net.get("fixxy_adjz"):
+        stats.label("fixxy_adjz")
     ids = [p["id"] for p in net["points"]]
     if any(not i.isascii() for i in ids):
         stats.label("non_ascii_ids")
@@ -205,6 +231,30 @@ def oracle(c, stats):
                 for k, v in zip(("x", "y", "z"), vals):
                     if k in a and abs(a[k] - v) > 1e-6 * max(1.0, abs(v)) * 1e-3 + 2e-6:
                         fails.append("octave.coordinates: %s %s = %r vs XML %r" % (pid, k, v, a[k]))
+        # counts of coordinates by status, and the index matrices: which coordinates are unknowns, which are constrained
+        for kind in ("adjusted", "constrained", "fixed"):
+            for grp in ("xyz", "xy", "z"):
+                key = "%s_%s" % (kind, grp)
+                if key in oc and int(oc[key]) != x["summary"]["coords_" + kind][grp]:
+                    fails.append("octave.count: %s = %d, XML %d" % (key, int(oc[key]), x["summary"]["coords_" + kind][grp]))
+        if "Points" in oc and "Indexes" in oc and "Constrained" in oc and len(oc["Points"]) == len(oc["Indexes"]) == len(oc["Constrained"]):
+            adj = {a["id"]: a for a in x["coordinates"]["adjusted"]}
+            seen = []
+            for pid, ind, con in zip(oc["Points"], oc["Indexes"], oc["Constrained"]):
+                a = adj.get(pid.replace("''", "'"))
+                if a is None or len(ind) != 3 or len(con) != 3:
+                    continue
+                has = [("x" in a), ("y" in a), ("z" in a)]
+                if [i > 0 for i in ind] != has:
+                    fails.append("octave.indexes: %s has unknowns %s, the XML lists %s" % (pid, ind, [k for k, h in zip("xyz", has) if h]))
+                cons = set(a.get("constrained", []))
+                want = [ind[k] if "xyz"[k] in cons else 0 for k in range(3)]
+                if con != want:
+                    fails.append("octave.constrained: %s Constrained row %s, expected %s (XML marks %s as constrained, Indexes %s)"
+                                 % (pid, con, want, sorted(cons), ind))
+                seen += [i for i in ind if i > 0]
+            if len(seen) != len(set(seen)):
+                fails.append("octave.indexes: an index of an unknown is used twice: %s" % sorted(seen))
     else:
         fails.append("octave.missing: no sum_of_squares in the Octave output")
     return fails
@@ -336,6 +386,44 @@ def check_text(c, x, text_bytes, stats):
             fails.append("text.coordinates: adjusted values of the text output %s differ from the XML %s" % (found[:6], vals[:6]))
     elif vals:
         fails.append("text.coordinates_missing: no adjusted coordinate lines recognised")
+    # the table "Adjusted coordinates": every row belongs to the point whose identifier heads its block; constrained
+    # coordinates carry an upper-case letter and '*'
+    per = {}
+    cur = None
+    section = False
+    for line in text.splitlines():
+        if line.startswith("Adjusted coordinates"):
+            section = True
+            continue
+        if section and (line.startswith("Adjusted orientation") or line.startswith("Mean errors") or
+                        line.startswith("Adjusted observations") or line.startswith("Residuals") or line.startswith("Adjusted heights")):
+            section = False
+        if not section or not line.strip() or set(line.strip()) <= set("*=") or "approximate" in line or "[m]" in line:
+            continue
+        mm = re.match(r"^\s*\d+\s+([xyzXYZ])\s*(\*?)\s+(-?\d+\.\d{5})\s+(-?\d+\.\d{5})\s+(-?\d+\.\d{5})\s+(-?\d+\.\d)\s+(-?\d+\.\d)\s*$", line)
+        if mm:
+            if cur is None:
+                fails.append("text.coordinate_rows: a coordinate row precedes any point identifier: %r" % line.strip()[:60])
+                continue
+            per.setdefault(cur, {})[mm.group(1).lower()] = (float(mm.group(5)), mm.group(1).isupper(), mm.group(2) == "*")
+        else:
+            cur = line.strip()
+    if per:
+        adjp = {a["id"]: a for a in x["coordinates"]["adjusted"]}
+        for pid, a in adjp.items():
+            rows = per.get(" ".join(pid.split()))
+            want = {k: a[k] for k in ("x", "y", "z") if k in a}
+            if rows is None:
+                if any(ch in pid for ch in "\n\t") or pid != pid.strip():
+                    continue
+                fails.append("text.coordinate_rows: no block headed %r in the table of adjusted coordinates (blocks %s)" % (pid, sorted(per)[:6]))
+                continue
+            if set(rows) != set(want) or any(abs(rows[k][0] - want[k]) > 1.1e-5 for k in want):
+                fails.append("text.coordinate_rows: block %r lists %s, the XML %s" % (pid, {k: v[0] for k, v in rows.items()}, want))
+            cons = set(a.get("constrained", []))
+            for k, (v, up, star) in rows.items():
+                if (k in cons) != up or (k in cons) != star:
+                    fails.append("text.constrained_mark: %r %s constrained=%s in the XML, text letter upper=%s star=%s" % (pid, k, k in cons, up, star))
     # adjusted orientation unknowns: rows "i standpoint approximate correction adjusted sd ci" [gon] (gons only)
     if c["angular"] == "400" and x["orientations"]:
         rows = []
